@@ -19,10 +19,16 @@ V20_TYPES = {T_IND20}
 ABSENT = -1
 
 
+UPPER_TYPES = set()       # set by a driver for the duration of one history
+
+
 def sid(n):
     # ids ending in 5..9 are UUIDv5-shaped (legal in 2.1, and for content that is not validated); the 2.0 type keeps UUIDv4
     ver = "5" if (n % 10 >= 5 and n // 10 not in V20_TYPES) else "4"
-    return "%s--%08x-1111-%s111-8111-111111111111" % (TYPES[n // 10], n % 10, ver)
+    u = "%08x-1111-%s111-8111-1111111111ab" % (n % 10, ver)
+    if n // 10 in UPPER_TYPES:        # identifiers whose UUID is written with upper-case hex letters (accepted by the library in both spec versions)
+        u = u.upper()
+    return "%s--%s" % (TYPES[n // 10], u)
 
 
 def nid(s):
